@@ -1,7 +1,7 @@
 """C19 a2ml_specification!: typed IF_DATA access round-trips.
    P  Props/C19.v on the model A2ml/Typed.v of the generated code: load(store(v)) = v for every typed shape and well-typed
       value (any nesting), shape mismatches are error values
-   C  the extracted model against the code that the IN-TREE macro crate generates (harness/macroprobe: six fixed invocations
+   C  the extracted model against the code that the IN-TREE macro crate generates (harness/macroprobe: seven fixed invocations
       covering every construct): the generic items the library parsed (harness kind IFDATA) are decoded by the model with the
       typed shape of the specification; decode outcome (value / no value) and every decoded leaf value are compared with
       X::load_from_ifdata (Debug text of the typed value) on conforming instances and on IF_DATA parsed under another in-file
@@ -131,7 +131,7 @@ def check(tier, seed):
                                 'a2lmacros) does not build', 'detail': probe_err[-3000:]}, no_input=True)
         return v.finish('proof')
 
-    n = 25 if tier == 'quick' else 400
+    n = 25 if tier == 'quick' else 4000
     nspec = len(M.SPECS)
     texts = M.run('TEXT', [[i] for i in range(nspec)])
     xtext = [t[1] if not isinstance(t, str) and t[0] == 'OK' else '' for t in texts]
@@ -149,6 +149,8 @@ def check(tier, seed):
                 c = M.mismatch_case(si, rng, fam)
                 if c is not None:
                     rt_cases.append(c)
+    for si in range(nspec):               # after the random cases: every tagged member of every specification, bounds of its types
+        rt_cases.extend(M.directed_cases(si, rng))
     rt_ans = M.run('RT', rt_cases)
     val_cases = []
     for si in range(nspec):
@@ -203,10 +205,11 @@ def check(tier, seed):
 
     v.coverage.update({
         'evaluations': len(rt_cases) + len(val_cases) + nspec, 'distinct_nontrivial': len(set(str(c[:3]) for c in rt_cases)),
-        'rule': ('6 fixed a2ml_specification! invocations (all scalar types, char[n], arrays, named/anonymous enums, nested structs, sequences, '
+        'rule': ('%d fixed a2ml_specification! invocations (all scalar types, char[n], arrays, named/anonymous enums, nested structs, sequences, '
                  'taggedstruct with single/repeated/block/data-less members, taggedunion, nested blocks, the specification of the repository\'s own '
-                 'test) x conforming instances (X_TEXT / own rendering / typed shape as in-file definition) x 23 families of mismatching in-file '
-                 'definitions x all hand-built boundary values; non-trivial = distinct (specification, definition, block)'),
+                 'test, one tag below two parents with the same layout and other referenced types) x conforming instances (X_TEXT / own rendering / '
+                 'typed shape as in-file definition; every tagged member at the bounds of its types) x 23 families of mismatching in-file '
+                 'definitions x all hand-built boundary values; non-trivial = distinct (specification, definition, block)') % nspec,
         'macro_crate': str(in_tree)[:200],
         'statistics': dict(stats),
         'model_cases': len(mlines), 'correspondence_mismatches': len(mism),
